@@ -7,11 +7,13 @@ import (
 	"log"
 	"os"
 	"path/filepath"
+	"strings"
 	"sync"
 	"testing"
 	"time"
 
 	"verifh/fw"
+	"verifh/script"
 	"verifh/tcpx"
 	"verifh/vt"
 )
@@ -87,10 +89,48 @@ func short(s string) string {
 	return s
 }
 
+// scripted: relative scripts (overlapping and out-of-order peer data, acknowledgements that
+// end inside segments or cover several, SACK blocks, duplicate ACKs, waits long enough for
+// retransmissions) against one stack, with the sequence spaces placed far from and just
+// below the wraps. Judged on content only: what Read returns and what the stack emits at
+// every stream offset.
+func scripted(t *testing.T, lo, hi int) {
+	vt.Bubble(t, func() {
+		for k := lo; k < hi && run.Violations() < 3; k++ {
+			sc := script.Gen(run.Seed, "C01s", k)
+			r := fw.NewRand(run.Seed, "C01s", "place", k)
+			d1, d2 := uint32(1+r.Intn(4000)), uint32(1+r.Intn(4000))
+			ok := false
+			for _, pl := range [][2]uint32{{1000000, 2000000}, {0 - d1, 0 - d2}, {1<<31 - d1, 1<<31 - d2}, {^uint32(0), ^uint32(0)}} {
+				out, e := script.Play(sc, pl[0], pl[1])
+				run.Count("scripted_replays", 1)
+				switch {
+				case strings.HasPrefix(e, "content mismatch"):
+					key := "C01/scripted/receive-content"
+					if strings.Contains(e, "send side") {
+						key = "C01/scripted/send-content"
+					}
+					run.Violation(key, fmt.Sprintf("scripted exchange %d with sequence spaces starting at own=%d peer=%d: %s", k, pl[0], pl[1], e), map[string]interface{}{"script": sc, "own_iss": pl[0], "peer_iss": pl[1], "transcript": out})
+				case e != "":
+					run.Count("scripted_not_played:"+e, 1)
+				default:
+					ok = true
+				}
+			}
+			run.Case(fw.Hash("scripted", sc.Active, sc.TS, sc.SACK, len(sc.Steps)), ok)
+		}
+		os.Exit(run.Finish("", nil))
+	})
+}
+
 // child: run scenarios lo..hi in one bubble (virtual time) or in real time.
 func child(t *testing.T) {
 	var lo, hi int
 	fmt.Sscan(os.Getenv("VERIF_RANGE"), &lo, &hi)
+	if os.Getenv("VERIF_PHASE") == "scripted" {
+		scripted(t, lo, hi)
+		return
+	}
 	realTime := os.Getenv("VERIF_REALTIME") == "1"
 	cur := filepath.Join(os.Getenv("VERIF_RUN_DIR"), os.Getenv("VERIF_TAG")+".current.json")
 	body := func() {
@@ -200,13 +240,19 @@ func TestC01(t *testing.T) {
 		go runChild(os.Getenv("VERIF_BIN_VT"), fmt.Sprintf("vt%d", c), nvt*c/nchild, nvt*(c+1)/nchild, nil, false)
 	}
 	wg.Wait()
+	nsc := fw.N(640, 40000)
+	for c := 0; c < 8; c++ {
+		wg.Add(1)
+		go runChild(os.Getenv("VERIF_BIN_VT"), fmt.Sprintf("scripted%d", c), nsc*c/8, nsc*(c+1)/8, []string{"VERIF_PHASE=scripted"}, false)
+	}
+	wg.Wait()
 	// real-time subset under the race detector (pinned toolchain)
 	for c := 0; c < 4; c++ {
 		wg.Add(1)
 		go runChild(os.Getenv("VERIF_BIN_RACE"), fmt.Sprintf("race%d", c), 1000000+nrt*c/4, 1000000+nrt*(c+1)/4, []string{"VERIF_REALTIME=1"}, true)
 	}
 	wg.Wait()
-	code := run.Finish("two real stacks joined by the adversarial wire; per scenario PRNG-chosen: IPv4/IPv6, SACK, Reno/CUBIC, MTU 100..65535, latency, send/receive buffers 1 byte..1 MiB, 0..4 MiB per direction in both directions at once, write chunks 1..256 KiB, reader pacing and pauses, per-packet drop (uniform and bursty) / duplicate / delay (reorder) / stale replay on both directions, ISS of the active or the passive side placed just below 2^31 / 2^32 (crossings counted from the wire), three close orders. Oracle at the API boundary: byte i of direction d is f(seed,d,i); every byte returned by Read is compared, and must lie below the bytes offered to Write so far. Bulk runs in virtual time (go1.26.8 synctest bubble), a subset in real time under the race detector (go1.23.5). distinct = distinct (configuration class x observed fault class); non-trivial = connected and at least one byte verified",
+	code := run.Finish("two real stacks joined by the adversarial wire; per scenario PRNG-chosen: IPv4/IPv6, SACK, Reno/CUBIC, MTU 100..65535, latency, send/receive buffers 1 byte..1 MiB, 0..4 MiB per direction in both directions at once, write chunks 1..256 KiB, reader pacing and pauses, per-packet drop (uniform and bursty) / duplicate / delay (reorder) / stale replay on both directions, ISS of the active or the passive side placed just below 2^31 / 2^32 (crossings counted from the wire), three close orders. Oracle at the API boundary: byte i of direction d is f(seed,d,i); every byte returned by Read is compared, and must lie below the bytes offered to Write so far. Bulk runs in virtual time (go1.26.8 synctest bubble), a subset in real time under the race detector (go1.23.5). Scripted phase: relative scripts against one stack and a scripted peer (overlapping / out-of-order / duplicate peer data, acknowledgements ending inside segments or covering several, SACK, duplicate ACKs, waits that let retransmissions happen), each played with the sequence spaces far from and just below 2^31 / 2^32; every byte Read returns and every byte of every emitted data segment is compared with the position-coded stream. distinct = distinct (configuration class x observed fault class); non-trivial = connected and at least one byte verified",
 		[]string{"packets are dropped/duplicated/delayed/replayed but never altered (the stack does not verify checksums on receive)", "scenarios that do not complete by the virtual deadline are counted here and judged by C02"})
 	os.Exit(code)
 }
